@@ -75,7 +75,7 @@ def main():
     tags = [T("species", "A"), T("call", "x"), T("species", "B")]
     for lst, label_fn, mapping, vo, sep, sk, idx, seqfn in itertools.product(
             ([], tags[:1], tags), (None, lambda t: "F" + t.value), (None, {tags[0]: "MAPPED"}), (False, True), (":", "="),
-            (None, "call", "nope"), (None, 0, 4, -1), (None, lambda ts: "SEQ")):
+            (None, "call", "nope", "species"), (None, 0, 4, -1), (None, lambda ts: "SEQ")):    # "species" occurs twice: the FIRST tag with the key is selected
         kw = dict(label_fn=label_fn, label_mapping=mapping, value_only=vo, separator=sep) if False else {}
         inner = {}
         if label_fn is not None:
